@@ -9,6 +9,7 @@ From SV Require Import KV.KvBase KV.KvLex KV.KvParse KV.KvSym KV.KvRoundtrip.
 From SV Require Import Fmt.VmfText Fmt.VmfTextProofs Fmt.VmfBlocks Fmt.VmfBlocksProofs Fmt.VmfFields Fmt.VmfFieldsProofs.
 From SV Require Import Fmt.VmfNum Fmt.VmfNumProofs Fmt.VmfGuard Fmt.VmfGuardProofs.
 From SV Require Import Fmt.VmfLite Fmt.VmfLiteProofs Fmt.VmfFlags Fmt.VmfFlagsProofs Fmt.VmfTok Fmt.VmfTokProofs Fmt.VmfPlane Fmt.VmfPlaneProofs.
+From SV Require Import Fmt.VmfIds Fmt.VmfIdsProofs Fmt.VmfTree Fmt.VmfTreeProofs Fmt.VmfSets Fmt.VmfSetsProofs Fmt.VmfViewport Fmt.VmfViewportProofs Fmt.VmfWholeProofs.
 From SV Require Import Gen.VmfTemplates_gen Gen.VmfKeys_gen Gen.VmfDispSizes_gen Gen.VmfOrder_gen Gen.VmfProg_gen Gen.VmfFieldsCfg_gen Gen.VmfNumFmt_gen Gen.VmfLite_gen Gen.VmfFlags_gen.
 Import ListNotations.
 
@@ -308,3 +309,124 @@ Theorem c06_plane_text_roundtrip : forall a b c, no_paren a = true -> no_paren b
 Proof. exact plane_text_roundtrip. Qed.
 Theorem c06_plane_paren_in_part_refuted : plane_parse (plane_text [49; 41; 32; 40; 50] [51] [52])%N = None.
 Proof. exact plane_paren_in_part_refuted. Qed.
+
+(** 14. IDs are preserved when asked (round 4).  Gen/VmfIds_gen.v holds, read from vmf.py: the class every ID-manager
+    attribute of a VMF gets under preserve_ids and otherwise (VMF.__init__ executed in both worlds), the get_id method of
+    each such class as a decision list over the requested ID (one entry per path; comparisons with constants, and one
+    opaque condition whose outcome the obligations quantify over), and the constructor sites that ask a manager.
+    A decision list that passes [nid_ok] hands back every natural number it is asked for; one that fails it renumbers some
+    natural number; [kind_ok] is the obligation per kind of ID (entity, solid, face, group, visgroup, node). *)
+Theorem c06_preserving_manager_keeps_every_id : forall p, nid_ok p = true -> forall d o, (0 <= d)%Z -> id_get p o d = AKeep.
+Proof. exact nid_ok_sound. Qed.
+Theorem c06_manager_check_is_complete : forall p, nid_ok p = false -> exists d o, (0 <= d)%Z /\ id_get p o d = AOther.
+Proof. exact nid_ok_complete. Qed.
+Theorem c06_manager_comparisons_meaning : forall o d c k, guard_le o (le_of d) (GCmp c k) = cmp_sem c d k.
+Proof. exact guard_le_cmp. Qed.
+Theorem c06_ids_preserved_per_kind : forall classes mans sites attr, kind_ok classes mans sites attr = true ->
+  exists m p, In m mans /\ im_attr m = attr /\ assoc_s (im_preserve m) classes = Some p /\
+    (forall d o, (0 <= d)%Z -> id_get p o d = AKeep) /\
+    (exists s, In s sites /\ is_manager s = attr) /\
+    (forall s, In s sites -> is_manager s = attr -> is_stores_result s = true).
+Proof. exact kind_ok_sound. Qed.
+Theorem c06_manager_positive_only_refuted : nid_ok ex_positive_only = false /\ id_get ex_positive_only true 0 = AOther /\
+  id_get ex_positive_only true 1 = AKeep.
+Proof. exact positive_only_refuted. Qed.
+Theorem c06_ordinary_manager_not_preserving : nid_ok ex_idman = false /\ id_get ex_idman true 5 = AOther /\ id_get ex_idman false 5 = AKeep.
+Proof. exact idman_not_preserving. Qed.
+Example c06_null_manager_example : nid_ok ex_nullid = true /\ id_get ex_nullid true 0 = AKeep /\ id_get ex_nullid true (-1) = AOther.
+Proof. exact ex_nullid_ok. Qed.
+
+(** 15. The whole object tree (round 4): composition of the per-class tables over the containment tree
+    VMF > Entity > Solid > Side (the dispinfo lines belong to Side's table).  An object is a node with its class, one value
+    per scalar attribute of the class, and child objects tagged with the attribute that holds them.  [export_t] writes the
+    lines of the class table and recursively the children held in exported attributes; [parse_t] reads every scalar line
+    through the reader's entry for the same key and recursively the child blocks the reader builds objects from.  For every
+    class table, every well-formed tree (classes paired -- the obligations [fields_paired:<Class>]; children in attributes
+    that are exported and filled -- the obligations [containment_edge:<Class>.<attr>]) and field codecs that invert (the
+    string / number / flag / output / fixup theorems above; for the ID lines under preserve_ids: section 14, get_id hands back
+    the number read), parsing the export gives the object back, at any depth and width; hence the second export is the first. *)
+Theorem c06_tree_roundtrip : forall (V T : Type) (dflt : V) (enc : lentry -> list V -> T) (dec : lentry -> T -> V) (tbl : list liteclass),
+  codecs_invert V T enc dec tbl ->
+  forall x : otree V, wf V tbl x -> parse_t V T dflt dec tbl (export_t V T dflt enc tbl x) = x.
+Proof. exact tree_roundtrip. Qed.
+Theorem c06_tree_fixed_point : forall (V T : Type) (dflt : V) (enc : lentry -> list V -> T) (dec : lentry -> T -> V) (tbl : list liteclass),
+  codecs_invert V T enc dec tbl ->
+  forall x : otree V, wf V tbl x ->
+    export_t V T dflt enc tbl (parse_t V T dflt dec tbl (export_t V T dflt enc tbl x)) = export_t V T dflt enc tbl x.
+Proof. exact tree_fixed_point. Qed.
+Theorem c06_containment_edge_meaning : forall tbl p a c, edge_ok tbl ((p, a), c) = true ->
+  exists lp lcc, cls_of tbl p = Some lp /\ cls_of tbl c = Some lcc /\ lite_paired lp = true /\ lite_paired lcc = true /\
+    In a (lc_kids_written lp) /\ In a (lc_kids_read lp).
+Proof. exact edge_ok_sound. Qed.
+Theorem c06_tree_children_not_read_refuted :
+  parse_t nat nat 0%nat tree_ex_dec [ex_solid_deaf; ex_side] (export_t nat nat 0%nat tree_ex_enc [ex_solid_deaf; ex_side] ex_tree)
+    = ONode nat "" "Solid" [("id"%string, 0%nat)] [] /\
+  chain_ok [ex_solid_deaf; ex_side] [(("Solid", "sides"), "Side")]%string ["Solid"; "Side"]%string = false.
+Proof. exact tree_children_not_read_refuted. Qed.
+Example c06_tree_example : wf nat [ex_solid; ex_side] ex_tree /\
+  parse_t nat nat 0%nat tree_ex_dec [ex_solid; ex_side] (export_t nat nat 0%nat tree_ex_enc [ex_solid; ex_side] ex_tree) = ex_tree.
+Proof. split; [exact ex_tree_wf | exact (proj1 tree_example)]. Qed.
+
+(** 16. Membership sets (round 4).  Visgroup and group membership are Python sets: their iteration order depends on the
+    history of insertions and removals.  Gen/VmfSets_gen.v lists every loop of an export method over a set-typed attribute
+    with whether it iterates [sorted(...)]; the obligation [membership_lines_in_canonical_order] is [member_loops_ok].
+    Written in canonical order, the lines do not depend on the iteration order (so the set re-parsed from them is written
+    identically the second time) and are exactly the elements of the set; written in iteration order they do depend on it. *)
+Theorem c06_membership_lines_canonical : forall s1 s2 : list Z, NoDup s1 -> NoDup s2 -> same_set s1 s2 ->
+  write_members true s1 = write_members true s2.
+Proof. exact members_canonical. Qed.
+Theorem c06_membership_lines_content : forall s : list Z, same_set (write_members true s) s.
+Proof. exact members_content. Qed.
+Theorem c06_membership_iteration_order_refuted : same_set [8; 1]%Z [1; 8]%Z /\
+  write_members false [8; 1]%Z <> write_members false [1; 8]%Z /\ write_members true [8; 1]%Z = write_members true [1; 8]%Z.
+Proof. exact members_iteration_order_refuted. Qed.
+
+(** 17. The planar axis of a 2D viewport (round 4).  Gen/VmfViewport_gen.v holds the three slots the writer's template
+    fills for each axis (marker constant, u, v), the tiers of marker values the reader tries in order and the table from the
+    chosen axis to the axes of u and v.  If they pass [vp_ok], a 2D viewport whose u and v are not marker values re-reads as
+    itself -- a zero coordinate included, which the pinned tree (zero accepted as a marker alongside +-65536) lost. *)
+Theorem c06_viewport_axis_roundtrip : forall tiers tbl inv, vp_ok tiers tbl inv = true ->
+  forall t1 r, tiers = t1 :: r ->
+  forall a u v, in_tier t1 u = false -> in_tier t1 v = false ->
+  vp_read tiers inv (vp_write tbl a u v) = Some (a, u, v).
+Proof. exact vp_roundtrip. Qed.
+Theorem c06_viewport_zero_marker_refuted : vp_ok ex_tiers_zero_first ex_tbl ex_inv = false /\ vp_read ex_tiers_zero_first ex_inv (vp_write ex_tbl AY 0 5) = None.
+Proof. exact vp_zero_marker_refuted. Qed.
+Theorem c06_viewport_marker_as_coordinate_refuted : vp_read ex_tiers ex_inv (vp_write ex_tbl AX 65536 5) = None.
+Proof. exact vp_marker_as_coordinate_refuted. Qed.
+Example c06_viewport_example : vp_ok ex_tiers ex_tbl ex_inv = true /\ vp_read ex_tiers ex_inv (vp_write ex_tbl AY 0 5) = Some (AY, 0%Z, 5%Z).
+Proof. exact vp_example. Qed.
+
+(** 18. The property in one statement (round 4), with its hypotheses visible.  For ANY generated objects -- write programs
+    [progs], parser sites [P], object-level class table [ctbl], ID-manager classes / attributes / sites, membership loops,
+    viewport tables -- that pass the named Boolean obligations the check discharges in the kernel on every run for today's
+    vmf.py, and field codecs that invert (the per-field theorems of sections 1-13):
+    (text)   every export program's text parses into exactly the tree of keys, values and child blocks the writer was given;
+    (tree)   every well-formed object tree is given back by parse-after-export, and the second export equals the first;
+    (ids)    under preserve_ids every manager hands back every natural number, for each of the listed kinds of ID;
+    (sets)   membership lines do not depend on the iteration order of the set;
+    (views)  the planar axis and the two coordinates of a 2D viewport survive.
+    What connects (text) and (tree) -- that the blocks and lines of [export_t] are the blocks and lines of the write programs --
+    is the generated tables themselves (both are read from the same export methods; obligation
+    [tie:program_sites_match_template_sites]); it is not a theorem. *)
+Theorem c06_property :
+  forall nums progs (P : parsecfg) (ctbl : list liteclass) classes mans sites (kinds : list string) loops tiers vtbl vinv
+         (V T : Type) (dflt : V) (enc : lentry -> list V -> T) (dec : lentry -> T -> V),
+  table_ok nums progs = true -> pcfg_ok P = true ->
+  codecs_invert V T enc dec ctbl ->
+  (forall k, In k kinds -> kind_ok classes mans sites k = true) ->
+  member_loops_ok loops = true ->
+  vp_ok tiers vtbl vinv = true ->
+  (forall fuel fn e text kvs flag_on, env_ok nums e ->
+     run (fun_lookup progs) fuel (fun_lookup progs fn) [] e = Some (text, kvs) -> doc_names_ok kvs = true ->
+     parse_kv P vmf_E flag_on text = POk kvs)
+  /\ (forall x : otree V, wf V ctbl x ->
+        parse_t V T dflt dec ctbl (export_t V T dflt enc ctbl x) = x /\
+        export_t V T dflt enc ctbl (parse_t V T dflt dec ctbl (export_t V T dflt enc ctbl x)) = export_t V T dflt enc ctbl x)
+  /\ (forall k, In k kinds -> exists m p, In m mans /\ im_attr m = k /\ assoc_s (im_preserve m) classes = Some p /\
+        forall d o, (0 <= d)%Z -> id_get p o d = AKeep)
+  /\ (forall l, In l loops -> ml_sorted l = true) /\
+     (forall s1 s2 : list Z, NoDup s1 -> NoDup s2 -> same_set s1 s2 -> write_members true s1 = write_members true s2)
+  /\ (forall t1 r, tiers = t1 :: r -> forall a u v, in_tier t1 u = false -> in_tier t1 v = false ->
+        vp_read tiers vinv (vp_write vtbl a u v) = Some (a, u, v)).
+Proof. exact whole_property. Qed.
